@@ -115,6 +115,17 @@ fn judge_err(files: &[(String, Vec<u8>)], l: &ArcLayout, ec: &ErrCase, t: &mut T
     }
 }
 
+fn scale_sets() -> Vec<(String, Vec<(String, Vec<u8>)>)> {
+    let mut v = Vec::new();
+    for n in [255usize, 256, 257, 1000] {
+        v.push((format!("{} files", n), (0..n).map(|i| (format!("file{:04}.bin", i), body(i % 5, i % 7))).collect()));
+    }
+    for n in [65_535usize, 65_536, 70_001] {
+        v.push((format!("bodies of {} bytes", n), vec![("a.bin".to_string(), body(0, n)), ("日本.bin".to_string(), body(1, 2)), ("c.bin".to_string(), body(2, n + 3))]));
+    }
+    v
+}
+
 fn explore(ctx: &Ctx) -> Outcome {
     let sets = file_sets(ctx.tier);
     let total = sets
@@ -148,6 +159,18 @@ fn explore(ctx: &Ctx) -> Outcome {
         })
         .reduce(Tally::new, Tally::merge);
     let mut total = total;
+    // scale: many records, large bodies
+    for (tag, files) in scale_sets() {
+        for padded in [true, false] {
+            let ident: Vec<usize> = (0..files.len()).collect();
+            let l = ArcLayout { padded, tables_first: !padded, record_order: ident.iter().rev().cloned().collect(), body_order: ident.clone(), info_before_count: false };
+            total.cases += 1;
+            total.nontrivial += 1;
+            if let Some((sig, summary)) = judge_ok(&files, &l, &mut total) {
+                total.violate(format!("scale:{}", sig), format!("[{}, padded={}] {}", tag, padded, summary), json!({"scale": tag, "padded": padded}));
+            }
+        }
+    }
     total.sample(json!({"lens": [1, 5], "layout": layout_json(&ref_pack::arc_layouts(2)[3])}));
     let mut o = total.into_outcome(
         "every arc image the reference builder writes over: 0..=3 files with lengths from {0,1,3,4,5,32} (all combinations), with/without the 0x60 zero header, Count/Info tables before or after the bodies and in either order, ALL record orders × ALL body placements; oracle: one entry per record keyed by name with exactly the recorded bytes. Error family per image: no Count label, no Info label, a record without a name string, size/offset pushed 1 and 4 bytes past the data region, 0xFFFFFFFF size, offsets that wrap a 32-bit sum with 0x60 ⇒ Err, in both arithmetic builds. non-trivial = image with ≥ 1 file or an error case",
@@ -159,6 +182,21 @@ fn explore(ctx: &Ctx) -> Outcome {
 }
 
 fn replay(_ctx: &Ctx, case: &Value) -> Vec<Violation> {
+    if let Some(tag) = case["scale"].as_str() {
+        let padded = case["padded"].as_bool().unwrap_or(true);
+        let mut t = Tally::new();
+        let mut out = Vec::new();
+        for (t2, files) in scale_sets() {
+            if t2 == tag {
+                let ident: Vec<usize> = (0..files.len()).collect();
+                let l = ArcLayout { padded, tables_first: !padded, record_order: ident.iter().rev().cloned().collect(), body_order: ident.clone(), info_before_count: false };
+                if let Some((sig, summary)) = judge_ok(&files, &l, &mut t) {
+                    out.push(Violation { sig: format!("scale:{}", sig), summary, case: case.clone() });
+                }
+            }
+        }
+        return out;
+    }
     let lens: Vec<usize> = serde_json::from_value(case["lens"].clone()).unwrap_or_default();
     let files = files_of(&lens);
     let l = layout_from(&case["layout"]);
